@@ -30,6 +30,6 @@ for bid in sys.argv[1:]:
                     bad.append("%s %s ANALYSIS-BROKEN %s" % (prop, rule, str(e)[:200]))
     finally:
         core.set_overlay({})
-    print("[%s] %d problem(s) in %.0fs" % (bid, len(bad), time.time() - t0))
+    print("[%s] %d problem(s) in %.0fs" % (bid, len(bad), time.time() - t0), flush=True)
     for b in bad:
-        print("    " + b)
+        print("    " + b, flush=True)
